@@ -1246,6 +1246,8 @@ def cond_rule(ctx, method, rule="ALG-Cond"):
             elif len(seconds) > 1:
                 ck.fail("both branch updates receive the same constraint", f"found {[short(y, ev, 60) for y in seconds]}")
             cond_update_constraint(ctx, ev, lin, second, func_loc(ctx, dotted))
+        if method == "regenerate":
+            t0, t1 = cond_regenerate_synced(ctx, ev, lin, s.ret, t0, t1, func_loc(ctx, dotted))
         a, b = cond_sub("callee", method, t0, second), cond_sub("callee_", method, t1, second)
         for asg, leaf in spine_cases(s.ret):
             it = items(leaf)
@@ -1303,6 +1305,50 @@ def cond_update_constraint(ctx, ev, lin, second, loc, rule="ALG-Cond"):
                 "model.update(tr, {'z': ~z, 'y': {'a': 0.3}}) with y = Cond(br_a, br_b)(z) having addresses a, b", loc)
     else:
         ctx.ok(rule, construct, "both branches are updated with the constraint completed by the old visible choices")
+
+
+def regenerated_branch_traces(ret):
+    """(first argument of self.callee.regenerate, first argument of self.callee_.regenerate) as the code has them"""
+    out = []
+    for attr in ("callee", "callee_"):
+        cs = list(dict.fromkeys(x[2][0] for x in subterms(ret) if is_call(x) and x[1] == ("attr", ("attr", SELF, attr), "regenerate") and x[2]))
+        out.append(cs[0] if len(cs) == 1 else None)
+    return out
+
+
+def cond_regenerate_synced(ctx, ev, lin, ret, t0, t1, loc, rule="ALG-Cond"):
+    """Cond.regenerate keeps unselected choices: the two branch traces hold different values at shared addresses (one visible, one hidden)
+    and a branch regenerate keeps its *own* old value wherever the selection is silent; on a branch switch that is the hidden value.
+    So the trace each branch regenerates from must be that branch's old trace brought to the choices visible in the old trace, under the
+    old arguments: callee_i.update(tr.trs[i], CHOICES(tr), *old rest args, **old kwargs)[0] (a no-op for the branch that was visible)."""
+    construct = "core.Cond.regenerate (visible choices)"
+    got = regenerated_branch_traces(ret)
+    if got[0] is None or got[1] is None:
+        ctx.bad(rule, construct, "both branch traces regenerated once", "regenerate calls on the two branches not found", loc)
+        return t0, t1
+    OLDARGS = ("call", ("attr", TR, "get_args"), (), ())
+    problems = []
+    for i, (g, attr, told) in enumerate(zip(got, ("callee", "callee_"), (t0, t1))):
+        n = lin.norm(g)
+        ok = n[0] == "idx" and is_const(n[2], 0) and is_call(n[1]) and n[1][1] == ("attr", ("attr", SELF, attr), "update") and len(n[1][2]) >= 2 \
+            and n[1][2][0] == told and lin.norm(n[1][2][1]) == lin.norm(CH(TR))
+        if ok:
+            rest = n[1][2][2:]
+            kws = n[1][3]
+            ok = rest == (("star", ("rest", ("idx", OLDARGS, C(0)), 1)),) or rest == (("star", ("idx", ("idx", OLDARGS, C(0)), ("slice", C(1), NONE, NONE))),)
+            ok = ok and tuple(kws) == ((None, ("idx", OLDARGS, C(1))),)
+            if not ok:
+                problems.append(f"branch {i} is brought to the visible choices under {short(('tuple', rest), ev, 80)} {short(('dict', tuple((C(k), v) for k, v in kws if k)), ev, 40)}, not under the old trace's own arguments")
+        else:
+            problems.append(f"branch {i} regenerates from {short(g, ev, 100)}")
+    if problems:
+        ctx.bad(rule, construct, "each branch regenerates from its old trace brought to the visible choices",
+                "; ".join(problems) + ": a branch trace keeps its own old value at unselected addresses, so when the move switches the branch (a resampled mixture indicator) the "
+                "unselected choices of the Cond show the newly selected branch's hidden values instead of staying bit-identical; input: model.regenerate(tr, sel('z')) with "
+                "y = Cond(br_a, br_b)(z): y.b changes when z flips", loc)
+        return t0, t1
+    ctx.ok(rule, construct, "both branches regenerate from traces holding the visible choices")
+    return got[0], got[1]
 
 
 def ih_weight_axiom(x):
@@ -1517,6 +1563,11 @@ def cond_regenerate_rebased(ctx, rule="ALG-cond-regenerate"):
     construct = "core.Cond.regenerate"
     SEL = ("param", "s")
     t0, t1 = ("idx", ("attr", TR, "trs"), C(0)), ("idx", ("attr", TR, "trs"), C(1))
+    g0, g1 = regenerated_branch_traces(s.ret)
+    # the traces actually regenerated (the old branch traces, or those traces brought to the visible choices): the identity below holds for
+    # either, given the induction hypothesis; which of the two it has to be is decided by ALG-Cond (visible choices).  The synced trace of
+    # the branch that was visible has the visible score: score(update(trs[i], CHOICES(tr), old args)) selected by the old check is S(tr).
+    t0, t1 = (g0 or t0), (g1 or t1)
     a, b = cond_sub("callee", "regenerate", t0, SEL), cond_sub("callee_", "regenerate", t1, SEL)
     n = 0
     for asg, leaf in spine_cases(s.ret):
